@@ -144,7 +144,7 @@ def run(ctx):
     thorough = ctx.tier == "thorough"
     streams = [
         ("main", {"unknown": 0.0, "assert": 0.0, "recursion": False, "early_return": False, "devfn_param": 0.2, "alias_subs": 0.2,
-                  "wrong_kind": 0.05, "twin_devs": 0.4, "kernel_lookup": 0.5, "grid_literals": 0.25},
+                  "wrong_kind": 0.05, "twin_devs": 0.4, "kernel_lookup": 0.5, "grid_literals": 0.25, "kernel3": 0.5},
          40 if thorough else 24),
         ("F4", {"unknown": 0.0, "assert": 0.0, "recursion": False, "early_return": False, "cz_positional": 1.0, "subs": False,
                 "closures": False}, 8 if thorough else 3),
